@@ -44,6 +44,12 @@ func runOutFault(c Case) interface{} {
 	// undisturbed run: the complete output
 	full := dir + "/full.out"
 	code, _, se := runCmd(dir, bin, append(args, "-o", full)...)
+	if code == 1 {
+		// stagemaker refuses this root (FIFO among the files, symlink chain too long, ...): it
+		// reported failure, and there is no output whose completeness could be in question
+		c["undisturbed"] = "fails"
+		return obj("full", float64(0), "runs", []interface{}{})
+	}
 	if code != 0 {
 		return obj("harness-error", "undisturbed run failed: "+se)
 	}
